@@ -1,6 +1,6 @@
 (* Proofs about the error-faithful typed unpackers (ErrsTy.v). *)
 From Coq Require Import List String Ascii ZArith Bool Lia.
-From Verif Require Import Core TyModel TyProofs Errs ErrsProofs ErrsTy.
+From Verif Require Import Core TupleIdx TyModel TyProofs Errs ErrsProofs ErrsTy.
 Import ListNotations.
 Open Scope string_scope.
 Open Scope list_scope.
@@ -379,5 +379,77 @@ Section Typed.
     right. rewrite (look_d_lookup (ue E Q CF)) in Hl.
     destruct (d_lookup kvs (VStr (sf_name f))) as [x|] eqn:Ed; [|discriminate].
     cbn [option_map] in Hl. inversion Hl; subst. exists f, x. split; [apply In_td_order; exact Hin|auto].
+  Qed.
+
+  (* ---------------------------------------------------------------- tuples with an unpacked segment, on a list *)
+  Lemma nth_signed_In {A} (l: list A) i x : nth_signed l i = Some x -> In x l.
+  Proof.
+    unfold nth_signed. destruct (_ || _); [discriminate|]. apply nth_error_In.
+  Qed.
+
+  Lemma tu_ones_exn {T X} (run: T -> X -> res pv) konst (l: list X) : forall ds plan e,
+    tu_ones run konst (Some l) plan ds = Exn e ->
+    e = XIndexError \/ e = XTypeError \/ exists d x, In d ds /\ In x l /\ run d x = Exn e.
+  Proof.
+    induction ds as [|d ds IH]; intros plan e H; destruct plan as [|a plan]; cbn [tu_ones] in H;
+      try discriminate; try (inversion H; auto; fail).
+    unfold tu_at in H. destruct (konst d) as [c0|].
+    - destruct (tu_ones run konst (Some l) plan ds) as [ys|e1] eqn:Et; [discriminate|].
+      inversion H; subst. destruct (IH plan e Et) as [H1|[H1|[d' [x [Hd [Hx Hr]]]]]]; auto.
+      right; right. exists d', x. split; [right; exact Hd|auto].
+    - destruct a as [i|i j].
+      + destruct (nth_signed l i) as [x|] eqn:En.
+        * destruct (run d x) as [y|e0] eqn:Er.
+          -- destruct (tu_ones run konst (Some l) plan ds) as [ys|e1] eqn:Et; [discriminate|].
+             inversion H; subst. destruct (IH plan e Et) as [H1|[H1|[d' [x' [Hd [Hx Hr]]]]]]; auto.
+             right; right. exists d', x'. split; [right; exact Hd|auto].
+          -- inversion H; subst. right; right. exists d, x. split; [left; reflexivity|].
+             split; [eapply nth_signed_In; exact En|exact Er].
+        * inversion H; auto.
+      + inversion H; auto.
+  Qed.
+
+  Lemma In_firstn' {A} n : forall (l: list A) x, In x (firstn n l) -> In x l.
+  Proof.
+    induction n as [|n IH]; intros l x H; [destruct H|]. destruct l as [|y l]; [destruct H|].
+    cbn [firstn] in H. destruct H as [H|H]; [left; exact H|right; apply IH; exact H].
+  Qed.
+  Lemma In_skipn' {A} n : forall (l: list A) x, In x (skipn n l) -> In x l.
+  Proof.
+    induction n as [|n IH]; intros l x H; [exact H|]. destruct l as [|y l]; [destruct H|].
+    cbn [skipn] in H. right. apply IH. exact H.
+  Qed.
+
+  Lemma slice_list_In {A} (l: list A) i j x : In x (slice_list l i j) -> In x l.
+  Proof.
+    unfold slice_list. destruct (_ <=? _)%Z; [intros []|].
+    intros H. apply In_firstn' in H. apply In_skipn' in H. exact H.
+  Qed.
+
+  (* Tuple[pre..., *Tuple[t, ...], post...] on a list: IndexError (a head / tail position past the end), or an
+     item's own exception, unchanged; nothing else (TypeError only for a malformed plan, which cu never builds) *)
+  Theorem tupleu_var_exn : forall plan pre u post l e,
+    ue E Q CF (VList l) (UTupleU plan pre (UTupleVar u) post) = Exn e ->
+    e = XIndexError \/ e = XTypeError \/
+    exists u' x, (In u' pre \/ u' = u \/ In u' post) /\ In x l /\ ue E Q CF x u' = Exn e.
+  Proof.
+    intros plan pre u post l e H. cbn [ue] in H. unfold tu_walk in H.
+    set (run := fun (u': pdec) (dx: pdec -> res pv) => dx u') in *.
+    set (items := map (fun x => ue E Q CF x) l) in *.
+    assert (Hrun: forall d dx, In dx items -> run d dx = Exn e -> exists x, In x l /\ ue E Q CF x d = Exn e).
+    { intros d dx Hin Hr. unfold items in Hin. apply in_map_iff in Hin. destruct Hin as [x [Hx Hin]].
+      subst dx. exists x. split; [exact Hin|exact Hr]. }
+    destruct (tu_ones run (const_dec E) (Some items) (firstn (Datatypes.length pre) plan) pre) as [a|e1] eqn:E1; cbn [bind] in H.
+    2:{ inversion H; subst. destruct (tu_ones_exn _ _ _ _ _ _ E1) as [H1|[H1|[d [dx [Hd [Hx Hr]]]]]]; auto.
+        destruct (Hrun d dx Hx Hr) as [x [Hin He]]. right; right. exists d, x. auto. }
+    destruct (nth_error plan (Datatypes.length pre)) as [[i|i j]|]; cbn [bind] in H; try (inversion H; auto; fail).
+    cbn [option_map mid_var] in H.
+    destruct (mapM (run u) (slice_list items i j)) as [m|e2] eqn:E2; cbn [bind] in H.
+    2:{ inversion H; subst. apply mapM_exn in E2. destruct E2 as [dx [Hin Hr]]. apply slice_list_In in Hin.
+        destruct (Hrun u dx Hin Hr) as [x [Hx He]]. right; right. exists u, x. auto. }
+    destruct (tu_ones run (const_dec E) (Some items) (skipn (S (Datatypes.length pre)) plan) post) as [b|e3] eqn:E3; cbn [bind] in H;
+      [discriminate|].
+    inversion H; subst. destruct (tu_ones_exn _ _ _ _ _ _ E3) as [H1|[H1|[d [dx [Hd [Hx Hr]]]]]]; auto.
+    destruct (Hrun d dx Hx Hr) as [x [Hin He]]. right; right. exists d, x. auto.
   Qed.
 End Typed.
